@@ -131,6 +131,49 @@ def scope_stream(ctx, label, items, model_ok, rep):
     return srcs, impl
 
 
+def fixed_scope_programs():
+    """(tag, script, expected stdout, expected status) — situations the token languages do not reach"""
+    out = []
+    # destructuring ASSIGNMENT updates the nearest enclosing declarations (also the collected rest) from any nested scope;
+    # destructuring DECLARATION there shadows them
+    pats = [("[a, ..r]", "[1, 2, 3]", "1\n[\n    2,\n    3,\n]\n"), ("{k, ..r}", '{"k": 1, "x": 2}', '1\n{\n    "x": 2,\n}\n'),
+            ("[a, [r]]", "[1, [2]]", "1\n2\n"), ('{"k": a, "m": {"n": r}}', '{"k": 1, "m": {"n": 2}}', "1\n2\n"),
+            ("{..r}", '{"x": 2}', '0\n{\n    "x": 2,\n}\n'), ("[..r]", "[2]", "0\n[\n    2,\n]\n")]
+    scopes = [("function", "fn load(v) {\n    @S\n    return 0\n}\nload(@V)\n"), ("if-block", "if true {\n    @S\n}\n"),
+              ("for-body", "for [zi, zv] in [0] {\n    @S\n}\n"), ("while-body", "zn := 0\nwhile zn < 1 {\n    zn += 1\n    @S\n}\n"),
+              ("bare-block", "{\n    {\n        @S\n    }\n}\n"), ("closure", "g := fn() {\n    @S\n    return 0\n}\ng()\n")]
+    for pat, val, shown in pats:
+        first = "a" if "a" in pat.replace('"k": a', "a") and "[a" in pat or '"k": a' in pat else ("k" if "{k" in pat else None)
+        names = [n for n in ("a", "k", "r") if n in [first, "r"]]
+        decl = "".join(f"{n} := 0\n" for n in names)
+        show = "".join(f"print({n})\n" for n in names)
+        for sname, tmpl in scopes:
+            src_v = "v" if sname == "function" else val
+            body = tmpl.replace("@S", f"{pat} = {src_v}").replace("@V", val)
+            exp = shown if first else shown[2:]
+            out.append((("destructuring-assignment", pat, sname), decl + body + show, exp if first else shown.split("\n", 1)[1], "0"))
+            body = tmpl.replace("@S", f"{pat} := {src_v}").replace("@V", val)
+            out.append((("destructuring-declaration-shadows", pat, sname), decl + body + show, "0\n" * len(names), "0"))
+    # every `while` iteration has its own scope: closures of different iterations keep their own variables, and a
+    # declaration of one iteration is not there in the next
+    out.append((("while-iteration-closures",), "fs := []\ni := 0\nwhile i < 3 {\n    j := i * 10\n    fs += [fn() {\n        return j\n    }]\n    i += 1\n}\n"
+                "for [_, f] in fs {\n    print(f())\n}\n", "0\n10\n20\n", "0"))
+    out.append((("while-iteration-redeclare",), "k := 0\nseen := \"outer\"\nwhile k < 2 {\n    if k == 1 {\n        print(seen)\n    }\n    seen := \"inner\"\n    k += 1\n}\n"
+                "print(seen)\n", "outer\nouter\n", "0"))
+    out.append((("while-iteration-counter-closures",), "cs := []\ni := 0\nwhile i < 2 {\n    n := 0\n    cs += [fn() {\n        n += 1\n        return n\n    }]\n    i += 1\n}\n"
+                "print(cs[0]())\nprint(cs[0]())\nprint(cs[1]())\n", "1\n2\n1\n", "0"))
+    # a scope that ends stays alive for the closures that captured it, whatever else it holds (also closures made elsewhere)
+    mk = "fn make_step(k) {\n    return fn() {\n        return k\n    }\n}\n"
+    out.append((("scope-holds-foreign-closure",), mk + "fn make() {\n    step := make_step(10)\n    n := 0\n    return fn() {\n        n += step()\n        return n\n    }\n}\n"
+                "d := make()\nprint(d())\nprint(d())\n", "10\n20\n", "0"))
+    out.append((("scope-holds-only-closures",), mk + "fn make() {\n    s1 := make_step(1)\n    s2 := make_step(2)\n    return fn() {\n        return s1() + s2()\n    }\n}\n"
+                "print(make()())\nf := make()\ng := make()\nprint(f() + g())\n", "3\n6\n", "0"))
+    out.append((("block-scope-captured",), mk + "keep := [0]\n{\n    step := make_step(5)\n    keep[0] = fn() {\n        return step()\n    }\n}\nprint(keep[0]())\n", "5\n", "0"))
+    out.append((("loop-scope-captured",), mk + "keep := []\nfor [i, v] in [1, 2] {\n    step := make_step(v)\n    keep += [fn() {\n        return step() * 10\n    }]\n}\n"
+                "print(keep[0]())\nprint(keep[1]())\n", "10\n20\n", "0"))
+    return out
+
+
 def run(ctx, model_ok):
     thorough = ctx.tier == "thorough"
     rep = Reporter(ctx)
@@ -176,6 +219,20 @@ def run(ctx, model_ok):
         if len(chunk) >= 40000:
             flush()
     flush()
+
+    # fixed situations
+    fx = fixed_scope_programs()
+    fimpl, fdis = tie.run(ctx, [f[1] for f in fx], "scope_fixed", model_ok, project=tie.proj_full)
+    fbad = set()
+    for (tag, src, out, st), r in zip(fx, fimpl):
+        ctx.nontrivial(("fixed",) + tag)
+        if (r["stdout"], r["status"]) != (out, st):
+            c = core.run_cli(src)
+            if (c["stdout"], c["status"]) != (out, st):
+                fbad.add(src)
+                rep.report(f"{' / '.join(tag)}: lexical scoping predicts status {st} and stdout {out!r}; the implementation gives status "
+                           f"{c['status']} and stdout {c['stdout']!r}", "fixed-" + tag[0], src)
+    tie.report_disagreements(ctx, [d for d in fdis if d[0] not in fbad], "scope_fixed")
 
     # random structured programs
     n = 60000 if thorough else 8000
